@@ -201,7 +201,13 @@ func (dc *DeploymentController) scaleDownOldReplicaSetsForRollingUpdate(ctx cont
 	// Check if we can scale down.
 	minAvailable := *(deployment.Spec.Replicas) - maxUnavailable
 	// Find the number of available pods.
-	availablePodCount := deploymentutil.GetAvailableReplicaCountForReplicaSets(allRSs)
+	// Pods that are already ordered deleted (status not yet caught up with spec) must not count as available.
+	availablePodCount := int32(0)
+	for _, rs := range allRSs {
+		if rs != nil {
+			availablePodCount += integer.Int32Min(rs.Status.AvailableReplicas, *(rs.Spec.Replicas))
+		}
+	}
 	if availablePodCount <= minAvailable {
 		// Cannot scale down.
 		return 0, nil
